@@ -140,6 +140,29 @@ def mutate_in_place(v):
     return ok
 
 
+def rle(b):
+    """Run-length encoded Coq literal: list of (count, pattern)"""
+    segs = []
+    lit = bytearray()
+    i = 0
+    n = len(b)
+    while i < n:
+        j = i
+        while j < n and b[j] == b[i]:
+            j += 1
+        if j - i >= 64:
+            if lit:
+                segs.append("(1, %s)" % common.zlist(list(lit)))
+                lit = bytearray()
+            segs.append("(%d, [%d])" % (j - i, b[i]))
+        else:
+            lit += b[i:j]
+        i = j
+    if lit or not segs:
+        segs.append("(1, %s)" % common.zlist(list(lit)))
+    return "[" + "; ".join(segs) + "]"
+
+
 def zbytes(b):
     return common.zlist(list(b))
 
@@ -154,8 +177,14 @@ def _probe_digest(args, kwargs, salt):
     np = _np()
 
     def can(x):
-        if isinstance(x, list):
-            return ("list", tuple(can(y) for y in x))
+        if isinstance(x, np.ma.MaskedArray):
+            return ("masked", canon(np.asarray(x.data)), canon(np.ma.getmaskarray(x)))
+        if isinstance(x, np.ndarray) and x.dtype.names is not None:
+            return ("rec", str(x.dtype.descr), canon(x))
+        if isinstance(x, (list, tuple)):
+            return (type(x).__name__, tuple(can(y) for y in x))
+        if isinstance(x, dict):
+            return ("dict", tuple((str(k), can(x[k])) for k in sorted(x, key=str)))
         return canon(x)
     h = hashlib.sha256(repr((salt, tuple(can(a) for a in args),
                              tuple(sorted((k, can(v)) for k, v in
@@ -174,6 +203,13 @@ def probe_b(*args, **kwargs):
     _PROBE_CALLS[0] += 1
     d = _probe_digest(args, kwargs, "b")
     return d[:8].copy(), d[8:].astype(_np().int64)
+
+
+def probe_d(*args, **kwargs):
+    """verification probe returning nested containers of arrays"""
+    _PROBE_CALLS[0] += 1
+    d = _probe_digest(args, kwargs, "d")
+    return [d[:4].copy(), (d[4:8].copy(), [d[8:].copy()])]
 
 
 def probe_c(*args, **kwargs):
@@ -271,18 +307,22 @@ class Md5Shim:
     def md5(self, *a, **k):
         shim = self
         h = self.real.md5(*a, **k)
-        shim.fed = bytearray()
 
         class H:
+            def __init__(self):
+                self.buf = bytearray()
+
             def update(self, b):
-                shim.fed += bytes(memoryview(b).cast("B")) if not isinstance(
+                self.buf += bytes(memoryview(b).cast("B")) if not isinstance(
                     b, (bytes, bytearray)) else b
                 h.update(b)
 
             def hexdigest(self):
+                shim.fed = self.buf     # the hasher that finishes last
                 return h.hexdigest()
 
             def digest(self):
+                shim.fed = self.buf
                 return h.digest()
         return H()
 
@@ -313,7 +353,7 @@ def get_memos():
         memos[name] = Memo(name, find_cache_obj(getattr(km, name), cached.Cache))
     memos["downsample_grid"] = Memo(
         "downsample_grid", find_cache_obj(dsm.downsample_grid, cached.Cache))
-    for f in (probe_a, probe_b, probe_c):
+    for f in (probe_a, probe_b, probe_c, probe_d):
         if f.__name__ not in _PROBE_OBJS:
             _PROBE_OBJS[f.__name__] = cached.Cache(f)
         memos[f.__name__] = Memo(f.__name__, _PROBE_OBJS[f.__name__], plain=f)
@@ -381,6 +421,33 @@ def build_member(A, rec):
         return dec_py(rec[1])
     if t == "l":
         return [dec_py(x) for x in rec[1]]
+    if t == "big":       # rec = ["big", n, k]: n items, the middle one shifted by k
+        a = np.zeros(rec[1], dtype=np.float64)
+        a[0] = 1.5
+        if rec[2]:
+            a[(rec[1] - 1) if (len(rec) > 3 and rec[3]) else rec[1] // 2] += rec[2]
+        return a
+    if t == "tup":
+        return tuple(build_member(A, r) for r in rec[1])
+    if t == "lst":
+        return [build_member(A, r) for r in rec[1]]
+    if t == "dct":
+        return {k: build_member(A, r) for k, r in rec[1]}
+    if t == "ma":        # masked array, rec[3] = mask bits
+        a = A[rec[1]:rec[2]]
+        return np.ma.masked_array(a.copy(), mask=[bool((rec[3] >> k) & 1)
+                                                  for k in range(len(a))])
+    if t == "rec":       # the same 16-byte records under two field layouts
+        layouts = [[("a", "<f8"), ("b", "<i8")], [("a", "<i8"), ("b", "<f8")],
+                   [("x", "<f8"), ("y", "<f8")]]
+        n = (rec[2] - rec[1]) // 2 * 2
+        return A[rec[1]:rec[1] + n].copy().view(np.dtype(layouts[rec[3]]))
+    if t == "emp":
+        return np.zeros(rec[1], dtype=rec[2])
+    if t == "bool":
+        return A[rec[1]:rec[2]] > rec[3]
+    if t == "npi":
+        return getattr(np, rec[1])(rec[2])
     raise ValueError(rec)
 
 
@@ -413,9 +480,24 @@ def gen_array_recipe(rng, lo=0, hi=7):
         return ["be", i, j]
     if r < 0.91:
         return [rng.choice(["bsw", "bsw", "bsw2"]), i, j]
-    if r < 0.96:
+    if r < 0.94:
         return ["0d", i]
-    return ["np", i]
+    if r < 0.96:
+        return ["np", i]
+    c = rng.random()
+    if c < 0.25:
+        return ["ma", i, j, rng.randint(0, 7)]
+    if c < 0.45 and j - i >= 2:
+        return ["rec", i, j, rng.randint(0, 2)]
+    if c < 0.6:
+        return ["emp", rng.choice([0, [0, 3], [3, 0]]), rng.choice(["<f8", "<i8", "|b1"])]
+    if c < 0.75:
+        return ["bool", i, j, rng.choice([10.0, 25.0])]
+    if c < 0.87:
+        return ["npi", rng.choice(["int32", "int64", "uint8", "float32"]), rng.choice([5, 55])]
+    return rng.choice([["tup", [["s", i, j]]], ["lst", [["s", i, j]]],
+                       ["dct", [["a", ["s", i, j]]]],
+                       ["tup", [["s", i, j], ["py", ["i", 5]]]]])
 
 
 PY_POOL = [["py", ["i", 5]], ["py", ["i", 55]], ["l", [["i", 5], ["i", 5]]],
@@ -434,7 +516,7 @@ def gen_sig(rng):
     r = rng.random()
     T = N_BASE
     if r < 0.45:
-        fname = rng.choice(["probe_a", "probe_a", "probe_b", "probe_c"])
+        fname = rng.choice(["probe_a", "probe_a", "probe_b", "probe_c", "probe_d"])
         if rng.random() < 0.4:
             # a split of A[0:k] into consecutive pieces: every other split of
             # the same prefix has the same concatenated bytes
@@ -541,6 +623,7 @@ def gen_cache_case(rng, thorough=False, big=False):
         if v not in base:
             base.append(v)
     cap = 100 if big else rng.choice([1, 2, 3, 5, 10, 20])
+    cap0 = cap
     nops = rng.randint(300, 420) if big else rng.randint(120, 260)
     ops = []
     sigs = []       # distinct signatures in first-use order
@@ -550,6 +633,13 @@ def gen_cache_case(rng, thorough=False, big=False):
         r = rng.random()
         if r < 0.07 and nouts:
             ops.append({"mut": rng.randint(max(0, nouts - 30), nouts - 1)})
+            continue
+        if r < 0.085 and not big:
+            if rng.random() < 0.4:
+                ops.append({"clear": 1})
+            else:
+                cap = rng.choice([1, 2, 3, 5, 10, 20])
+                ops.append({"setcap": cap})
             continue
         r = rng.random()
         need_new = big and len(sigs) < 140
@@ -564,7 +654,7 @@ def gen_cache_case(rng, thorough=False, big=False):
             sg = rng.choice(sigs)
         if rng.random() < 0.12:
             # the same arguments to another memoised function
-            fam = (["probe_a", "probe_b", "probe_c"] if sg[0].startswith("probe")
+            fam = (["probe_a", "probe_b", "probe_c", "probe_d"] if sg[0].startswith("probe")
                    else ["kde_gauss", "kde_histogram", "kde_multivariate"]
                    if sg[0].startswith("kde") else None)
             if fam:
@@ -576,8 +666,37 @@ def gen_cache_case(rng, thorough=False, big=False):
         ops.append({"f": sg[0], "pos": sg[1], "kw": sg[2]})
         nouts += 1
     # calls made and wiped with Cache.clear_cache() before the history starts
-    prefill = rng.choice([0, 0, 2, cap + 2]) if not big else rng.choice([0, 3])
-    return dict(kind="cache", base=base, cap=cap, prefill=prefill, ops=ops)
+    prefill = rng.choice([0, 0, 2, cap0 + 2]) if not big else rng.choice([0, 3])
+    return dict(kind="cache", base=base, cap=cap0, prefill=prefill, ops=ops)
+
+
+def gen_cache_large_case(rng):
+    """Short histories over arrays of 1001..5000 items that differ in the middle
+    only, bare and inside tuples / dicts / lists (str() of a container
+    abbreviates such arrays), plus masked and structured arrays."""
+    base = [rng.randint(1, 400) / 8.0 for _ in range(N_BASE)]
+    ops = []
+    wraps = [lambda r: r, lambda r: ["tup", [r]], lambda r: ["lst", [r]],
+             lambda r: ["dct", [["a", r]]], lambda r: ["tup", [["py", ["i", 5]], r]]]
+
+    def call(rec):
+        f = rng.choice(["probe_a", "probe_a", "probe_d"])
+        if rng.random() < 0.3:
+            ops.append({"f": f, "pos": [], "kw": {"bins": rec}})
+        else:
+            ops.append({"f": f, "pos": [rec], "kw": {}})
+        if rng.random() < 0.15:
+            ops.append({"mut": len([o for o in ops if "f" in o]) - 1})
+
+    # arrays that differ in one item only, in the middle or at the very end
+    for n in (5000, rng.choice([1001, 1500, 3000])):
+        for w in rng.sample(wraps, 2):
+            for k, end in ((0, 0), (7, 0), (7, 1)):
+                call(w(["big", n, k, end]))
+    for _ in range(rng.randint(2, 5)):
+        call(["ma", 0, 3, rng.randint(0, 7)] if rng.random() < 0.5
+             else ["rec", 0, 4, rng.randint(0, 2)])
+    return dict(kind="cache", base=base, cap=rng.choice([2, 100]), prefill=0, ops=ops)
 
 
 class AtomPool:
@@ -590,19 +709,36 @@ class AtomPool:
         if key not in self.index:
             self.index[key] = len(self.rendered)
             self.rendered.append("(%d, %s, %s, %s)" % (
-                tag, zbytes(b1), zbytes(b2), zbytes(b3)))
+                tag, zbytes(b1), zbytes(b2), rle(bytes(b3))))
         return self.index[key]
 
     def atom(self, arg):
         np = _np()
         if isinstance(arg, np.ndarray):
-            return self.add(0, arg.dtype.str.encode(), str(arg.shape).encode(),
+            dt = arg.dtype.str
+            if arg.dtype.names is not None:
+                dt += str(arg.dtype.descr)
+            return self.add(0, dt.encode(), str(arg.shape).encode(),
                             np.ascontiguousarray(arg).tobytes())
         return self.add(1, type(arg).__name__.encode(), str(arg).encode(), b"")
 
     def arg(self, arg):
+        """The value an argument denotes: arrays by dtype/shape/bytes, masked
+        arrays by data and mask, list/tuple/dict by their items, anything else
+        by type name and str()."""
+        np = _np()
+        if isinstance(arg, np.ma.MaskedArray):
+            return "TL 3 %s" % common.clist([self.arg(np.asarray(arg.data)),
+                                             self.arg(np.ma.getmaskarray(arg))])
         if isinstance(arg, list):
-            return "TL %s" % common.clist([self.arg(x) for x in arg])
+            return "TL 0 %s" % common.clist([self.arg(x) for x in arg])
+        if isinstance(arg, tuple):
+            return "TL 1 %s" % common.clist([self.arg(x) for x in arg])
+        if isinstance(arg, dict):
+            items = []
+            for k in sorted(arg, key=str):
+                items += [self.arg(k), self.arg(arg[k])]
+            return "TL 2 %s" % common.clist(items)
         return "TA %d" % self.atom(arg)
 
 
@@ -614,7 +750,7 @@ Definition mkcall (nm doc file : Z) (pos : list targ)
   (kw : list (Z * targ)) (fv : Z) : ccall := ((nm, doc, file), pos, kw, fv).
 Definition mkop (tag : Z) (c : ccall) (j : Z) : cop := (tag, c, j).
 Definition nocall : ccall := mkcall 0 0 0 [] [] 0.
-Definition mkcase (newkey cpy cap : Z) (pool : list (Z * bytes * bytes * bytes))
+Definition mkcase (newkey cpy cap : Z) (pool : list (Z * bytes * bytes * list (Z * bytes)))
   (ops : list cop) := (newkey, cpy, cap, pool, ops).
 """
 
@@ -638,6 +774,8 @@ def run_cache_case(case, memos=None):
     hits = misses = 0
     old_max = cached.MAX_SIZE
     keyrec = []          # (rendered single-call case, bytes fed to md5)
+    fedmap = {}          # digest of the md5 input -> (signature, fresh result, op)
+    keycoll = None
     shim = Md5Shim.install(cached)
     try:
         cached.Cache.clear_cache()
@@ -653,6 +791,16 @@ def run_cache_case(case, memos=None):
                 ok = mutate_in_place(outs[j]) if j < len(outs) else 0
                 flat += [5, ok]
                 rops.append("mkop 1 nocall %d" % j)
+                continue
+            if "clear" in op:
+                cached.Cache.clear_cache()
+                flat += [5, 1]
+                rops.append("mkop 2 nocall 0")
+                continue
+            if "setcap" in op:
+                cached.MAX_SIZE = op["setcap"]
+                flat += [5, 1]
+                rops.append("mkop 3 nocall %d" % op["setcap"])
                 continue
             m = memos[op["f"]]
             # fresh argument objects for the two calls
@@ -682,8 +830,14 @@ def run_cache_case(case, memos=None):
             if shim is not None:
                 shim.fed = None
             okc, vc = safe_call(m.obj, *pos2, **kw2)
+            if shim is not None and shim.fed is not None:
+                dg = hashlib.sha1(bytes(shim.fed)).hexdigest()
+                prev = fedmap.setdefault(dg, (skey, fv, i))
+                if prev[0] != skey and prev[1] != fv and keycoll is None:
+                    keycoll = (prev[2], i)
             if (shim is not None and shim.fed is not None and len(keyrec) < 3
-                    and skey not in [k[0] for k in keyrec] and i % 7 == 0):
+                    and skey not in [k[0] for k in keyrec] and i % 7 == 0
+                    and len(shim.fed) < 4000):
                 keyrec.append((skey, "mkop 0 (%s) 0" % sig, list(shim.fed)))
             hit = 1 if m.ncalls() == n0 else 0
             hits += hit
@@ -720,6 +874,11 @@ def run_cache_case(case, memos=None):
         if own:
             for m in memos.values():
                 m.restore()
+    if keycoll is not None and fail is None:
+        a, b = keycoll
+        fail = ("ops %d and %d: different arguments with different fresh results are "
+                "given the same md5 input (one key for two inputs): %s vs %s" % (
+                    a, b, json.dumps(case["ops"][a])[:160], json.dumps(case["ops"][b])[:160]))
     render = "mkcase 1 1 %d %s %s" % (case["cap"], common.clist(pool.rendered),
                                       common.clist(rops))
     keys = [("mkcase 1 1 1 %s [%s]" % (common.clist(pool.rendered), r), fed)
@@ -996,6 +1155,88 @@ def _anc_read(ds, feat):
     return canon(np.array(ds[feat], copy=True))
 
 
+def render_pobj(obj):
+    """A Python value as the Coq term of type pobj that util.obj2bytes is
+    modelled on (Model part G)."""
+    np = _np()
+    if isinstance(obj, (str, pathlib.PurePath)):
+        return "PStr %s" % zbytes(str(obj).encode("utf-8"))
+    if isinstance(obj, np.bool_):
+        return render_pobj(np.asarray(obj))
+    if isinstance(obj, (bool, int, float, np.number)):
+        return "PNum %s" % zbytes(str(obj).encode("utf-8"))
+    if obj is None:
+        return "PNone"
+    if isinstance(obj, np.ndarray):
+        return "PArr %s %s %s" % (zbytes(obj.dtype.str.encode()),
+                                  zbytes(str(obj.shape).encode()), zbytes(obj.tobytes()))
+    if isinstance(obj, (list, tuple)):
+        return "PSeq %s" % common.clist(["(%s)" % render_pobj(x) for x in obj])
+    if isinstance(obj, dict):
+        return render_pobj(sorted(obj.items()))
+    if hasattr(obj, "identifier"):
+        return render_pobj(obj.identifier)
+    raise ValueError("no pobj for %r" % type(obj))
+
+
+def _anc_hash_tie(ds, feat):
+    """What AncillaryFeature.hash feeds to md5 for `feat`, and the items the
+    model's anc_key is applied to."""
+    try:
+        from dclab.rtdc_dataset.feat_anc_core import ancillary_feature as afm
+        af = afm.AncillaryFeature.available_features(ds)[feat]
+        items = [render_pobj(ds[col]) for col in af.req_features]
+        for sec, keys in af.req_config:
+            for key in keys:
+                items.append(render_pobj("{}:{}={}".format(sec, key, ds.config[sec][key])))
+        reqret = af.req_func(ds)
+        if not isinstance(reqret, bool):
+            items.append(render_pobj(reqret))
+        shim = Md5Shim.install(afm)
+        if shim is None:
+            return None
+        try:
+            af.hash(ds)
+            fed = list(shim.fed or b"")
+        finally:
+            Md5Shim.uninstall(afm, shim)
+        return (common.clist(["(%s)" % it for it in items]), fed)
+    except Exception:
+        return None
+
+
+def gen_o2b_values(rng):
+    """Values of the shapes dclab passes to util.obj2bytes / hashobj"""
+    np = _np()
+    def leaf():
+        r = rng.random()
+        if r < 0.2:
+            return rng.choice(["", "none", "area_um", "imaging:pixel size=0.34", "True"])
+        if r < 0.35:
+            return rng.choice([0, 1, 55, -3, 0.34, 1e-7, True, False])
+        if r < 0.42:
+            return None
+        if r < 0.5:
+            return rng.choice([np.float64(0.5), np.int32(7), np.bool_(True)])
+        if r < 0.55:
+            return pathlib.Path("/tmp/x") / rng.choice(["a.rtdc", "b"])
+        n = rng.randint(0, 5)
+        dt = rng.choice(["<f8", "<i8", "|b1", "<u2", ">f8"])
+        a = np.array([rng.randint(0, 9) for _ in range(n)]).astype(dt)
+        if rng.random() < 0.2 and n % 2 == 0 and n:
+            a = a.reshape(2, n // 2)
+        return a
+    def value(depth):
+        r = rng.random()
+        if depth < 2 and r < 0.3:
+            xs = [value(depth + 1) for _ in range(rng.randint(0, 3))]
+            return xs if rng.random() < 0.5 else tuple(xs)
+        if depth < 2 and r < 0.38:
+            return {k: value(depth + 1) for k in rng.sample(["b", "a", "zz", "k1"], 2)}
+        return leaf()
+    return [value(0) for _ in range(rng.randint(30, 60))]
+
+
 def run_anc_case(case):
     np = _np()
     import dclab
@@ -1007,6 +1248,7 @@ def run_anc_case(case):
     fail = None
     known = None
     reads = 0
+    anc_tie = []           # (rendered items, bytes fed to md5 by AncillaryFeature.hash)
     cached_circ = None     # (bytes, dtype, shape) of circ when deform was computed
     for i, op in enumerate(case["ops"]):
         if op[0] == "mask":
@@ -1025,6 +1267,10 @@ def run_anc_case(case):
             ds.config["imaging"]["pixel size"] = pix
         else:
             okc, vc = safe_call(_anc_read, ds, op[1])
+            if okc and len(anc_tie) < 2 and op[1] in ("deform", "volume"):
+                tie = _anc_hash_tie(ds, op[1])
+                if tie is not None:
+                    anc_tie.append(tie)
             okf, vf = safe_call(_anc_read, _anc_dataset(n, mask, circ, pix), op[1])
             reads += 1
             if (okc, vc) != (okf, vf):
@@ -1046,7 +1292,7 @@ def run_anc_case(case):
             elif op[1] == "deform" and okc and circ is not None:
                 cached_circ = (circ.tobytes(), circ.dtype.str, circ.shape)
     return dict(fail=fail, known=known, known_id="C17-obj2bytes-dtype" if known else None,
-                nontrivial=reads > 2)
+                nontrivial=reads > 2, anc_tie=anc_tie)
 
 
 # --------------------------------------------------------------------------
@@ -1100,12 +1346,28 @@ def run_ufunc_case(case, scratch):
             levels.append(ch)
         return levels
 
+    FN = {"max": np.nanmax, "min": np.nanmin, "mean": np.nanmean}
+    KS = ["max", "mean", "min"]
+
+    def snapshot():
+        """summaries of what the root currently passes on to its child"""
+        ref = chain(filters, temp)
+        arr = np.array(ref[1]["deform"][:], dtype=np.float64)
+        out = {fn: safe_call(lambda fn=fn: float(FN[fn](arr))) for fn in FN}
+        _close_all(ref)
+        return out
+
     filters = [None, None]
     temp = None
     levels = chain(filters, temp)
     stale = False        # children not rejuvenated since the last change
     fail = None
     reads = 0
+    version = 0
+    g_loaded = False
+    vals = {0: snapshot()}
+    uops = []
+    tie_reads = []
     for i, op in enumerate(case["ops"]):
         if op[0] == "filt":
             filters[op[1]] = (op[2], op[3])
@@ -1113,6 +1375,14 @@ def run_ufunc_case(case, scratch):
             levels[op[1]].config["filtering"]["deform max"] = op[3]
             levels[op[1]].apply_filter()
             stale = True
+            if op[1] == 0:
+                version += 1
+                vals[version] = snapshot()
+                uops.append("(0, %d)" % version)
+            else:
+                # apply_filter of the child clears its feature objects and
+                # evaluates its box filter on deform (loading that object)
+                uops += ["(1, 0)", "(2, 9)"]
         elif op[0] == "temp":
             temp = op[1]
             dclab.set_temporary_feature(levels[0], "userdef1", deform * temp)
@@ -1120,10 +1390,23 @@ def run_ufunc_case(case, scratch):
         elif op[0] == "rej":
             levels[2].rejuvenate()
             stale = False
+            g_loaded = False
+            uops.append("(1, 0)")
+            if filters[1] is not None:
+                uops.append("(2, 9)")
         else:
+            lv, feat, fn = op[1], op[2], op[3]
+            if lv == 1 and feat == "deform":
+                # tie with Model urun: which data version does the summary reflect
+                tie_reads.append((fn, safe_call(
+                    lambda: float(getattr(levels[1]["deform"], fn)()))))
+                uops.append("(2, %d)" % KS.index(fn))
             if stale and op[1] > 0:
                 continue       # documented: children must be rejuvenated first
-            lv, feat, fn = op[1], op[2], op[3]
+            if lv == 2 and feat == "deform" and not g_loaded:
+                # the grandchild's first access loads the child's feature object
+                uops.append("(2, 9)")
+                g_loaded = True
             ref = chain(filters, temp)
             okc, vc = safe_call(lambda: float(getattr(levels[lv][feat], fn)()))
             okf, vf = safe_call(lambda: float(
@@ -1145,7 +1428,29 @@ def run_ufunc_case(case, scratch):
             l_.__exit__(None, None, None)
         except Exception:
             pass
-    return dict(fail=fail, nontrivial=reads > 3)
+    return dict(fail=fail, nontrivial=reads > 3, render="mku 0 %s" % common.clist(uops),
+                tie=dict(vals={str(v): vals[v] for v in vals}, reads=tie_reads))
+
+
+def ufunc_tie_compare(res, model):
+    """model: codes 10 * version + k; the value read on the implementation
+    must be the summary of that version of the data"""
+    KS = ["max", "mean", "min"]
+    reads = res["tie"]["reads"]
+    model = [c for c in model if c % 10 != 9]
+    if len(model) != len(reads):
+        return "model answers %d summary requests, implementation %d" % (len(model), len(reads))
+    for j, (code, (fn, got)) in enumerate(zip(model, reads)):
+        v, k = divmod(code, 10)
+        want = res["tie"]["vals"][str(v)][KS[k]]
+        okw, vw = want
+        okg, vg = got
+        same = (okw == okg) and ((not okw and vw == vg) or (
+            okw and (vw == vg or abs(vw - vg) <= 1e-12 * max(1.0, abs(vw)))))
+        if KS[k] != fn or not same:
+            return ("summary request %d (%s): implementation %s, the model says it reflects "
+                    "data version %d: %s" % (j, fn, vg, v, vw))
+    return None
 
 
 # --------------------------------------------------------------------------
@@ -1183,10 +1488,15 @@ def gen_hashfile_case(rng, thorough=False):
             # mostly new content of the same size as before
             cid = ncid if rng.random() < 0.8 else rng.randint(0, max(ncid, 1))
             ncid += 1
-            ops.append(["w", p, cid])
+            if p in written and rng.random() < 0.35:
+                ops.append(["w", p, cid, rng.choice([1, 7, 300, 999])])
+            else:
+                ops.append(["w", p, cid])
             written.add(p)
         elif r < 0.29:
             ops.append(["d", p])
+        elif r < 0.31 and p in written:
+            ops += [["h", p, 0, 0], ["wp", p, rng.randint(0, 40)], ["h", p, 0, 0]]
         else:
             v = rng.choice([0, 0, 1, 1, 2, 3, 4, 5, 6, 7, 8, 9, -1])
             ops.append(["h", p, v, rng.randint(0, 2)])
@@ -1199,6 +1509,7 @@ HF_HEADER = ("From Coq Require Import ZArith List.\nImport ListNotations.\n"
              "(maxsize, ops).\n"
              "Definition mkl (ro ml n : Z) (bad : list Z) (ops : list (Z * Z)) := "
              "(ro, ml, n, bad, ops).\n"
+             "Definition mku (v0 : Z) (ops : list (Z * Z)) := (v0, ops).\n"
              "Definition mko (ro reuse nat : Z) (data : list Z) "
              "(ops : list (Z * Z * Z * Z * list Z)) := (ro, reuse, nat, data, ops).\n")
 
@@ -1242,7 +1553,10 @@ def run_hashfile_case(case, scratch):
     if hasattr(hashfile, "cache_clear"):
         hashfile.cache_clear()
     seen = [dict() for _ in paths]   # (mtime, size) -> cid
+    shared = [dict() for _ in paths]  # (mtime, size) -> contents that shared this stat
     cur = [None] * len(paths)
+    known = None
+    tmp = d / "old_content.bin"
     flat = []
     rops = []
     fail = None
@@ -1250,17 +1564,43 @@ def run_hashfile_case(case, scratch):
     hits = misses = 0
     for i, op in enumerate(case["ops"]):
         if op[0] == "w":
-            _, pi, cid = op
+            pi, cid = op[1], op[2]
             p = paths[pi]
             p.write_bytes(hf_content(cid))
             st = p.stat()
+            if len(op) > 3 and seen[pi]:
+                # a rewrite only op[3] nanoseconds after the previous one
+                os.utime(p, ns=(st.st_atime_ns, max(k[0] for k in seen[pi]) + op[3]))
+                st = p.stat()
             key = (st.st_mtime_ns, st.st_size)
             if key in seen[pi] and seen[pi][key] != cid:
-                newm = max(k[0] for k in seen[pi]) + 1000
+                newm = max(k[0] for k in seen[pi]) + 1
                 os.utime(p, ns=(st.st_atime_ns, newm))
                 st = p.stat()
                 key = (st.st_mtime_ns, st.st_size)
                 bumps += 1
+            seen[pi][key] = cid
+            cur[pi] = cid
+            rops.append("(0, %d, %d, %d, %d)" % (pi, cid, key[1], key[0]))
+        elif op[0] == "wp":
+            # rewrite with the same size and put the old mtime back (cp -p,
+            # os.utime, coarse file-system clocks): known finding
+            pi, cid = op[1], op[2]
+            p = paths[pi]
+            if cur[pi] is None or not p.exists():
+                continue
+            st0 = p.stat()
+            size = st0.st_size
+            if size == 0:
+                continue
+            while (len(hf_content(cid)) != size
+                   or hf_content(cid) == hf_content(cur[pi])):
+                cid += 1
+            p.write_bytes(hf_content(cid))
+            os.utime(p, ns=(st0.st_atime_ns, st0.st_mtime_ns))
+            st = p.stat()
+            key = (st.st_mtime_ns, st.st_size)
+            shared[pi].setdefault(key, [seen[pi].get(key)]).append(cid)
             seen[pi][key] = cid
             cur[pi] = cid
             rops.append("(0, %d, %d, %d, %d)" % (pi, cid, key[1], key[0]))
@@ -1289,8 +1629,29 @@ def run_hashfile_case(case, scratch):
                 if vc == vf:
                     flat += [0, hit, (cur[pi] or 0) * 1000 + v]
                 else:
-                    flat += [1, hit, -1]
-                    bad = "returned %s, a fresh computation gives %s" % (vc, vf)
+                    # matcher of C17-hashfile-same-stat: a stale cache hit on a
+                    # file whose current (mtime_ns, size) was shown before by
+                    # another content, and the value is that content's hash
+                    st = p.stat()
+                    olds = shared[pi].get((st.st_mtime_ns, st.st_size), [])
+                    which = None
+                    for oc in olds:
+                        if oc is None or oc == cur[pi]:
+                            continue
+                        tmp.write_bytes(hf_content(oc))
+                        oko, vo = safe_call(fresh, tmp, args, kw)
+                        if oko and vo == vc:
+                            which = oc
+                            break
+                    if hit and which is not None:
+                        flat += [0, hit, which * 1000 + v]
+                        if known is None:
+                            known = ("op %d: hashfile after a rewrite that kept size and "
+                                     "mtime_ns returns the hash of the previous content "
+                                     "(%s, fresh %s)" % (i, vc, vf))
+                    else:
+                        flat += [1, hit, -1]
+                        bad = "returned %s, a fresh computation gives %s" % (vc, vf)
             elif not okc and not okf and vc == vf:
                 if vc == "FileNotFoundError":
                     flat += [4, 0, 0]
@@ -1307,7 +1668,8 @@ def run_hashfile_case(case, scratch):
     if hasattr(hashfile, "cache_clear"):
         hashfile.cache_clear()
     render = "mkh 100 %s" % common.clist(rops)
-    return dict(flat=flat, render=render, fail=fail, bumps=bumps,
+    return dict(flat=flat, render=render, fail=fail, bumps=bumps, known=known,
+                known_id="C17-hashfile-same-stat" if known else None,
                 nontrivial=hits > 0 and misses > 0, hits=hits, misses=misses)
 
 
@@ -1787,6 +2149,151 @@ def _close_all(objs):
             pass
 
 
+# --------------------------------------------------------------------------
+# 5b. sentence 2 of the property for every kind of feature: whatever is read
+#     through the dataset interface (index, image, mask, trace, contour,
+#     scalars; root, child, grandchild) and then modified in place, later
+#     reads return the stored data
+# --------------------------------------------------------------------------
+def gen_alias_case(rng):
+    n = rng.randint(3, 8)
+    ops = []
+    nouts = 0
+    for _ in range(rng.randint(25, 60)):
+        if nouts and rng.random() < 0.35:
+            ops.append(["mut", rng.randint(max(0, nouts - 8), nouts - 1)])
+        else:
+            ops.append(["read", rng.randint(0, 2), rng.randint(0, 9), rng.randint(0, n - 1)])
+            nouts += 1
+    return dict(kind="alias", n=n, seed=rng.randint(0, 10 ** 6),
+                root=rng.choice(["dict", "hdf5"]), user_contour=rng.random() < 0.5, ops=ops)
+
+
+ALIAS_PATHS = ["index", "image_i", "mask_i", "trace_i", "trace_all", "contour_i",
+               "deform_all", "image_all", "mask_all", "deform_slice"]
+
+
+def run_alias_case(case, scratch):
+    np = _np()
+    import random as _r
+    import dclab
+    from dclab.features import contour as fc
+    from . import gen
+    rg = _r.Random(case["seed"])
+    n = case["n"]
+    kinds = ("scalar", "image", "mask", "trace") + (("contour",) if case["user_contour"] else ())
+    spec = gen.random_dataset_spec(rg, n, kinds=kinds, nscalars=2)
+    feats = spec["features"]
+    # every event needs a contour: make the masks non-empty boxes
+    for i in range(n):
+        feats["mask"][i] = False
+        y0, x0 = rg.randint(0, 2), rg.randint(0, 3)
+        feats["mask"][i, y0:y0 + rg.randint(2, 4), x0:x0 + rg.randint(2, 5)] = True
+    if "deform" not in feats:
+        feats["deform"] = np.array([rg.randint(1, 80) / 8.0 for _ in range(n)])
+    keeps = [np.array([True] + [rg.random() < 0.7 for _ in range(n - 1)])]
+    keeps.append(np.array([True] + [rg.random() < 0.7 for _ in range(int(keeps[0].sum()) - 1)]))
+    objs = []
+    try:
+        if case["root"] == "dict":
+            dd = {}
+            for k, v in feats.items():
+                if isinstance(v, dict):
+                    dd[k] = {kk: vv.copy() for kk, vv in v.items()}
+                elif isinstance(v, list):
+                    dd[k] = [c.copy() for c in v]
+                else:
+                    dd[k] = v.copy()
+            root = dclab.new_dataset(dd)
+            root.config["imaging"]["pixel size"] = 0.34
+        else:
+            _REPLAY_N[0] += 1
+            path = os.path.join(scratch, "alias_%d_%d.rtdc" % (os.getpid(), _REPLAY_N[0]))
+            gen.write_spec(path, spec)
+            root = dclab.new_dataset(path)
+        objs.append(root)
+        levels = [root]
+        idxs = [np.arange(n)]
+        for lv in (0, 1):
+            levels[lv].filter.manual[:] = keeps[lv]
+            levels[lv].apply_filter()
+            ch = dclab.new_dataset(levels[lv])
+            ch.rejuvenate()
+            objs.append(ch)
+            levels.append(ch)
+            idxs.append(idxs[lv][keeps[lv]])
+
+        def expected(lv, path, i):
+            sel = idxs[lv]
+            i = i % len(sel)
+            if path == "index":
+                return np.arange(1, len(sel) + 1)
+            if path in ("image_i", "mask_i"):
+                return feats[path[:-2]][sel[i]]
+            if path in ("image_all", "mask_all"):
+                return feats[path[:-4]][sel]
+            if path == "trace_i":
+                return feats["trace"]["fl1_raw"][sel[i]]
+            if path == "trace_all":
+                return feats["trace"]["fl1_median"][sel]
+            if path == "contour_i":
+                if case["user_contour"]:
+                    return feats["contour"][sel[i]]
+                return fc.get_contour(feats["mask"][sel[i]])
+            if path == "deform_all":
+                return feats["deform"][sel]
+            return feats["deform"][sel][1:3]
+
+        def read(lv, path, i):
+            ds = levels[lv]
+            i = i % len(idxs[lv])
+            if path == "index":
+                return ds["index"][:] if hasattr(ds["index"], "__getitem__") else ds["index"]
+            if path in ("image_i", "mask_i"):
+                return ds[path[:-2]][i]
+            if path in ("image_all", "mask_all"):
+                return ds[path[:-4]][:]
+            if path == "trace_i":
+                return ds["trace"]["fl1_raw"][i]
+            if path == "trace_all":
+                return ds["trace"]["fl1_median"][:]
+            if path == "contour_i":
+                return ds["contour"][i]
+            if path == "deform_all":
+                return ds["deform"][:]
+            return ds["deform"][1:3]
+
+        outs = []
+        fail = None
+        muts = 0
+        reads_after = 0
+        for k, op in enumerate(case["ops"]):
+            if op[0] == "mut":
+                if op[1] < len(outs):
+                    mutate_in_place(outs[op[1]])
+                    muts += 1
+                continue
+            lv, path = op[1], ALIAS_PATHS[op[2] % len(ALIAS_PATHS)]
+            okc, vc = safe_call(read, lv, path, op[3])
+            want = expected(lv, path, op[3])
+            if okc and isinstance(vc, np.ndarray):
+                outs.append(vc)
+            else:
+                outs.append(None)
+            if muts:
+                reads_after += 1
+            good = okc and np.asarray(vc).shape == np.asarray(want).shape and bool(
+                np.array_equal(np.asarray(vc), np.asarray(want)))
+            if not good and fail is None:
+                fail = ("op %d: %s of level %d (%s root) %s after earlier in-place "
+                        "modifications of returned arrays" % (
+                            k, path, lv, case["root"],
+                            "differs from the stored data" if okc else "raised " + str(vc)))
+        return dict(fail=fail, nontrivial=muts > 0 and reads_after > 0)
+    finally:
+        _close_all(objs)
+
+
 def run_obj_checks(run, nworlds, kinds=None):
     """-> list of (case, result) for correspondence"""
     results = []
@@ -1919,6 +2426,8 @@ def exec_case(case, scratch, memos=None):
         return run_dsapi_case(case)
     if k == "anc":
         return run_anc_case(case)
+    if k == "alias":
+        return run_alias_case(case, scratch)
     if k == "ufunc":
         return run_ufunc_case(case, scratch)
     if k == "hashfile":
@@ -1939,6 +2448,45 @@ def _exec_worker(arg):
     except Exception as e:
         import traceback
         return {"crash": "%r\n%s" % (e, traceback.format_exc()[-1500:])}
+
+
+def split_flat(kind, flat):
+    """-> (what the property needs: statuses, values, dtypes;
+           policy: hit/miss flags, whether a write to a handed-out array was
+           refused -- eviction policy, view-vs-copy and key normalisation may
+           change without touching the property)"""
+    strict, policy = [], []
+    i = 0
+    n = len(flat)
+    if kind == "cache":
+        while i + 1 < n:
+            strict.append(flat[i])
+            policy.append(flat[i + 1])
+            i += 2
+    elif kind in ("hashfile", "lcl"):
+        while i + 2 < n:
+            if flat[i] == 5:
+                strict.append(5)
+                policy.append(flat[i + 1])
+            else:
+                strict += [flat[i], flat[i + 2]]
+                policy.append(flat[i + 1])
+            i += 3
+    else:
+        while i < n:
+            if flat[i] == 0 and i + 2 < n:
+                k = flat[i + 2]
+                strict += flat[i:i + 3 + k]
+                i += 3 + k
+            elif flat[i] == 5:
+                strict.append(5)
+                policy.append(flat[i + 1] if i + 1 < n else -1)
+                i += 2
+            else:
+                strict.append(flat[i])
+                i += 1
+    strict += flat[i:]
+    return strict, policy
 
 
 MODEL_FN = {"cache": ("cache_flat", CACHE_HEADER), "hashfile": ("hashfile_flat", HF_HEADER),
@@ -1963,6 +2511,10 @@ def run(run):
         cases.append(gen_anc_case(rng))
     for _ in range(80 if t else 10):
         cases.append(gen_ufunc_case(rng))
+    for _ in range(100 if t else 12):
+        cases.append(gen_alias_case(rng))
+    for _ in range(20 if t else 4):
+        cases.append(gen_cache_large_case(rng))
     for _ in range(80 if t else 14):
         cases.append(gen_hashfile_case(rng, t))
     for _ in range(400 if t else 80):
@@ -2018,7 +2570,7 @@ def run(run):
             run.count("hashfile:misses", res["misses"])
         if res.get("known"):
             run.oracle_failure(c, "[%s] %s" % (k, res["known"]), res["known_id"])
-            run.count("anc:known-finding-dtype")
+            run.count(k + ":known-finding")
         if res.get("fail"):
             run.oracle_failure(c, "[%s] %s" % (k, res["fail"]), classify(c, res["fail"]))
         if k in MODEL_FN:
@@ -2040,13 +2592,60 @@ def run(run):
             run.corr_checked += 1
             run.count("cache:key-bytes-compared")
             if m != fed:
-                d = next((i for i, (a, b) in enumerate(zip(m, fed)) if a != b),
-                         min(len(m), len(fed)))
-                run.mismatch(dict(kind="cache-key", call=r[-600:]),
-                             dict(first_difference_at=d, model=m[max(0, d - 8):d + 8],
-                                  length=len(m)),
-                             dict(impl=fed[max(0, d - 8):d + 8], length=len(fed)),
-                             what="key bytes fed to md5")
+                run.count("cache:key-encoding-differs-from-model")
+                if not any(nt.startswith("cache: md5 input") for nt in run.notes):
+                    run.notes.append(
+                        "cache: md5 input differs from the model's key_new: "
+                        "C17_key_encoding_injective is no longer about the encoding in "
+                        "the code (collisions are searched directly: one md5 input for "
+                        "two signatures with different fresh results is a failure)")
+    # util.obj2bytes and AncillaryFeature.hash vs. Model part G; the child's
+    # summary cache vs. urun
+    def encoding_tie(name, fn, items, theorem):
+        if not items:
+            return
+        out = common.coq_map(run.scratch, "c17_" + name, HF_HEADER, fn,
+                             [r for r, _ in items], shard=40)
+        for (r, fed), m in zip(items, out):
+            run.corr_checked += 1
+            run.count(name + ":bytes-compared")
+            if m != list(fed):
+                run.count(name + ":encoding-differs-from-model")
+                if not any(nt.startswith(name + ": bytes") for nt in run.notes):
+                    run.notes.append("%s: bytes differ from the model: %s no longer "
+                                     "describes the code" % (name, theorem))
+    anc_items = []
+    uf_items = []
+    for c, res in done:
+        if c["kind"] == "anc":
+            anc_items += res.get("anc_tie", [])
+        if c["kind"] == "ufunc" and "render" in res:
+            uf_items.append((c, res))
+    tt = time.time()
+    encoding_tie("anc_key", "anc_key", anc_items,
+                 "C17_ancillary_history_fresh / C17_obj2bytes_injective_partial")
+    try:
+        from dclab import util as _util
+        o2b = []
+        for v in gen_o2b_values(rng):
+            o2b.append(("(%s)" % render_pobj(v), _util.obj2bytes(v)))
+        encoding_tie("obj2bytes", "obj2bytes", o2b, "C17_obj2bytes_injective_refuted/_partial")
+    except common.ModelError:
+        raise
+    except Exception as e:
+        run.notes.append("obj2bytes tie not evaluated: %r" % (e,))
+    run.extra["phase_seconds"]["ties_anc_o2b"] = round(time.time() - tt, 1)
+    tt = time.time()
+    if uf_items:
+        um = common.coq_map(run.scratch, "c17_ufunc", HF_HEADER, "ufunc_flat",
+                            [res["render"] for _, res in uf_items], shard=40)
+        for (c, res), m in zip(uf_items, um):
+            run.corr_checked += 1
+            bad = ufunc_tie_compare(res, m)
+            if bad:
+                run.mismatch(c, dict(model=m[:40]), dict(impl=str(res["tie"]["reads"])[:400]),
+                             what="correspondence:ufunc " + bad)
+    run.extra["phase_seconds"]["tie_ufunc"] = round(time.time() - tt, 1)
     for k, items in by_kind.items():
         tk = time.time()
         fn, header = MODEL_FN[k]
@@ -2055,12 +2654,23 @@ def run(run):
                                shard=2 if k == "cache" else (4 if k == "hashfile" else 40))
         for (c, res), m in zip(items, model):
             run.corr_checked += 1
-            if m != res["flat"]:
+            ms, mp = split_flat(k, m)
+            fs, fp = split_flat(k, res["flat"])
+            if ms == fs and mp != fp:
+                run.count(k + ":policy-differs-from-model")
+                if not any(nt.startswith(k + ": policy") for nt in run.notes):
+                    run.notes.append(
+                        k + ": policy (hit/miss pattern or refusal of writes) differs from "
+                        "the model; results agree -- the model of the eviction/view policy "
+                        "no longer describes the code")
+            if ms != fs:
                 d = next((i for i, (a, b) in enumerate(zip(m, res["flat"])) if a != b),
                          min(len(m), len(res["flat"])))
                 run.mismatch(c, dict(first_difference_at=d, model=m[max(0, d - 6):d + 6]),
                              res["flat"][max(0, d - 6):d + 6], what="correspondence:" + k)
         run.extra["phase_seconds"]["model_" + k] = round(time.time() - tk, 1)
+    if os.environ.get("VERIF_PHASES"):
+        print("C17 phases:", run.extra["phase_seconds"])
 
 
 # --------------------------------------------------------------------------
@@ -2068,7 +2678,7 @@ def shrink(run, failure):
     case = failure["case"]
     kind = case.get("kind")
     if kind not in ("cache", "public", "dsapi", "anc", "ufunc", "hashfile", "lcl", "obj",
-                    "objnd") or "ops" not in case:
+                    "objnd", "alias") or "ops" not in case:
         return failure
 
     def fails(c):
@@ -2120,6 +2730,7 @@ def search(run, broken):
     gens = [lambda: gen_cache_case(rng, True), lambda: gen_cache_case(rng, True, big=True),
             lambda: gen_public_case(rng), lambda: gen_dsapi_case(rng),
             lambda: gen_anc_case(rng), lambda: gen_ufunc_case(rng),
+            lambda: gen_alias_case(rng), lambda: gen_cache_large_case(rng),
             lambda: gen_hashfile_case(rng, True), lambda: gen_lcl_case(rng, True)]
     for i in range(n):
         c = gens[i % len(gens)]()
